@@ -4,6 +4,7 @@ CONSTANTS
   FixPred = FALSE
   FixLeave = FALSE
   FixWrap = FALSE
+  FixDead = FALSE
   MaxTry = 10
   TrackCov = FALSE
   Goal = "none"
